@@ -214,7 +214,7 @@ pub fn run(ctx: &Ctx) {
         }
     }
 
-    let cases = ctx.cases(160_000, 12_000_000);
+    let cases = ctx.cases(1_200_000, 30_000_000);
     let out = run_prop(ctx, 16, cases, strategy, |c| {
         let (origin, text) = render(c, &corpus);
         if textmut::nesting_depth(&text) > MAX_DEPTH {
